@@ -245,6 +245,7 @@ class Report:
         self.trusted = []
         self.extra = {}
         self.analysed = {}
+        self.incomplete = []    # messages of rule groups that could not see their anchors (the others still run)
 
     def ok(self, rule, key, detail='', site=None):
         self.obligations.append({'rule': rule, 'key': f'{rule}:{key}', 'ok': True, 'msg': detail, 'site': site})
@@ -266,6 +267,16 @@ class Report:
 
     def note(self, s):
         self.notes.append(s)
+
+    def section(self, fn, *args, **kw):
+        """Run one rule group; an Incomplete raised inside it is recorded and the remaining groups still run (a violation
+        found elsewhere is reported even when this group lost its anchor).  bin/check turns a recorded Incomplete into
+        exit 2 unless an unlisted violation was found."""
+        try:
+            return fn(*args, **kw)
+        except Incomplete as e:
+            self.incomplete.append(str(e))
+            return None
 
 
 def load_known():
